@@ -40,18 +40,22 @@ type Call struct {
 	Fn   string  `json:"fn,omitempty"`
 	Args []VSpec `json:"args,omitempty"`
 	Tpl  string  `json:"tpl,omitempty"`
+	Coq  string  `json:"coq,omitempty"` // expr: the same tree as a term of the model's expr type
 }
 
 func (c *Call) key() string {
 	if c.Kind == "tpl" {
 		return "tpl:" + c.Tpl
 	}
+	if c.Kind == "expr" {
+		return "expr:" + c.Tpl
+	}
 	b, _ := json.Marshal(c.Args)
 	return c.Fn + string(b)
 }
 
 func (c *Call) brief() string {
-	if c.Kind == "tpl" {
+	if c.Kind == "tpl" || c.Kind == "expr" {
 		return abbreviate(c.Tpl, 120)
 	}
 	parts := make([]string, len(c.Args))
@@ -104,7 +108,7 @@ func messageKind(msg string) string {
 // ---------------------------------------------------------------------------------------------
 // the work-bound rule: which calls may legitimately take long (result-sized work)
 
-const hugeResult = 1e7 // bytes of rendered result from which on a slow call is considered result-sized
+const hugeResult = 2e5 // digits/bytes of result from which on a slow call is considered result-sized (10^4-digit base ^ 100 = 10^6 digits takes 1-2 s)
 
 func callMayBeHuge(c *Call) bool {
 	switch c.Kind {
@@ -171,6 +175,7 @@ func main() {
 		tasks = append(tasks, sweepTasks(r.Fork("sweep"), nCalls)...)
 		tasks = append(tasks, templateTasks(r.Fork("templates"), nTpl)...)
 		tasks = append(tasks, corrTasks(r.Fork("corr"), o)...)
+		tasks = append(tasks, exprTasks(r.Fork("expr"), o.Count(1500, 40000))...)
 	}
 
 	runTasks(tasks, nWorkers, lim, res)
@@ -264,7 +269,7 @@ func runTasks(tasks []*task, nWorkers int, lim limits, res *hx.Result) {
 }
 
 func hangShape(c *Call) string {
-	if c.Kind == "tpl" {
+	if c.Kind == "tpl" || c.Kind == "expr" {
 		return templateFeature(c.Tpl)
 	}
 	shape := c.Fn + ":" + tupleShape(c.Args)
@@ -307,6 +312,9 @@ func judge(cr *callResult, res *hx.Result) {
 	fnLabel := c.Fn
 	if c.Kind == "tpl" {
 		fnLabel = "template"
+	}
+	if c.Kind == "expr" {
+		fnLabel = "expression"
 	}
 
 	switch cr.oc {
